@@ -268,6 +268,7 @@ func templates(g *ssa.Function, target ssa.Instruction) ([]*PathState, bool) {
 }
 
 func resetInlineMemo() {
+	tripMemo = map[*ssa.Function]map[*ssa.BasicBlock]*tripLoop{}
 	pureMemo = map[*ssa.Function]int{}
 	tmplMemo = map[tmplKey][]*PathState{}
 	tmplComplete = map[tmplKey]bool{}
@@ -831,3 +832,6 @@ func KnownNonNil(t *Term) bool { return knownNonNil(t) }
 
 // NonNilGlobal: g only ever holds a fresh error/allocation.
 func NonNilGlobal(g *ssa.Global) bool { return nonNilGlobals[g] }
+
+// CurProg returns the program of the current load.
+func CurProg() *Prog { return curProg }
